@@ -373,6 +373,19 @@ def _mixtures(ctx):
             check(f"30{blank}{tag} NaCl@2 // H2O@1", sp.Rational(30, 70), f"percentage '{tag}'{' after a blank' if blank else ''}: two parts", quantity)
             check(f"30{blank}{tag} NaCl@2 // 20% H2O@1 // Fe", sp.Rational(30, 20), f"percentage '{tag}'{' after a blank' if blank else ''}: three parts", quantity)
             n += 2
+    # a single part is a mixture too ("quantity :: count unit part"): the material itself, in the stated amount
+    for text in ("5g NaCl@2", "5 mg NaCl@2", "2mL NaCl@2", "2 uL NaCl@2", "3nm NaCl@2", "3 cm NaCl@2"):
+        try:
+            f = I.call(fm, [text], {"table": w.table})
+            at = I.getattr(f, "atoms") if isinstance(f, SymObj) else None
+            ok1 = isinstance(at, dict) and set(at) == {E("Na"), E("Cl")}
+            ctx.check(ok1, "R8", f"a single quantified part: {text!r} is NaCl", f"result {_s(f)} atoms {_s(at)}", site, witness=text)
+            if ok1:
+                ok_ratio, how, wit = algebra.equal(at[E("Na")], at[E("Cl")], seed=ctx.seed)
+                ctx.check(ok_ratio, "R8", f"a single quantified part: {text!r} keeps the 1:1 composition", f"{_s(at)}", site, witness=text)
+        except SymRaise as exc:
+            ctx.fail("R8", f"a single quantified part: {text!r} is NaCl", f"rejected ({exc.exc} {exc.msg})", site, witness=text)
+        n += 1
     # a parenthesised mixture is a part
     nested = ["20vol% (10 wt% NaCl@2.16 // H2O@1) // D2O@1n", "5g (10 wt% NaCl@2.16 // H2O@1) // 5g D2O@1n", "(10 wt% NaCl@2.16 // H2O@1)@1.1"]
     # every unit as the first thing inside a parenthesised part
@@ -389,5 +402,5 @@ def _mixtures(ctx):
         except SymRaise as exc:
             ctx.fail("R8", f"a parenthesised mixture as a part: {text!r}", f"rejected ({exc.exc} {exc.msg})", site, witness=text)
         n += 1
-    ctx.floor("R8", 73)
+    ctx.floor("R8", 85)
     ctx.unit("mixture_strings", n)
